@@ -259,7 +259,8 @@ def check_stream(case):
         outcome = run(ctx, coro)
         close_orphans(ctx)
     if outcome[0] != "return":
-        raise RuntimeError(f"scenario crashed: {outcome!r}")
+        # the consumers above only use the public API on valid inputs: any exception is the library's
+        raise Violation(f"C20/{case['tool']}/unexpected-exception", repr(outcome))
     final_bound = bound
     if worst[0] > final_bound:
         raise Violation(f"C20/{name}/retains-more-than-window",
@@ -339,7 +340,8 @@ def check_tee(case):
         outcome = run(ctx, consume())
         close_orphans(ctx)
     if outcome[0] != "return":
-        raise RuntimeError(f"scenario crashed: {outcome!r}")
+        # the consumers above only use the public API on valid inputs: any exception is the library's
+        raise Violation(f"C20/{case['tool']}/unexpected-exception", repr(outcome))
     if problems:
         alive, bound, rounds, yielded, live = problems[0]
         raise Violation("C20/tee/retains-more-than-lead",
@@ -386,7 +388,8 @@ def check_groupby(case):
         outcome = run(ctx, consume())
         close_orphans(ctx)
     if outcome[0] != "return":
-        raise RuntimeError(f"scenario crashed: {outcome!r}")
+        # the consumers above only use the public API on valid inputs: any exception is the library's
+        raise Violation(f"C20/{case['tool']}/unexpected-exception", repr(outcome))
     if worst[0] > bound:
         raise Violation("C20/groupby/retains-more-than-window", f"alive={worst[0]} bound={bound} length={n}")
 
